@@ -603,6 +603,7 @@ int parse_instruction_msp430(AsmContext *asm_context, char *instr)
             if (IS_NOT_TOKEN(token,')'))
             {
               print_error_unexp(asm_context, token);
+              return -1;
             }
           }
             else
